@@ -21,12 +21,17 @@ def parseOptKind (s : String) : Option (Option Nat) :=
 /-- the variable bound at top level (harness: `run(prog, TypeError)`) -/
 def topBound : Nat := kindObj 0
 
+/-- the machine the translator's flags select: filter walk by index (the code now) or with foreach (the code before
+    fix a0ef2da, model `runOld`), consuming or not, the source's EXCEPTION_MAX_DEPTH -/
+def machine : Prog → Nat → St → St × List Ev × Sig :=
+  runCfg CelloGen.Exn.catchWalksFilterWithForeachEq CelloGen.Exn.catchConsumes CelloGen.Exn.maxDepth
+
 def report (p : Prog) : IO (Nat × Bool) := do
-  let (s, t, g) := run CelloGen.Exn.catchConsumes CelloGen.Exn.maxDepth p topBound St.init
+  let (s, t, g) := machine p topBound St.init
   let (rt, re) := eval p topBound
   IO.println s!"O trace={showTrace t} end={endOf g} depth={if g = .normal then toString s.depth else "-"}"
   -- reference outcome + whether the program meets the hypotheses of C07_current_source (then O and R must agree)
-  let hyp := inDomain p && nodupFilters p && decide (nest p ≤ CelloGen.Exn.maxDepth)
+  let hyp := inDomain p && decide (nest p ≤ CelloGen.Exn.maxDepth)
   IO.println s!"R trace={showTrace rt} exc={match re with | none => "none" | some e => if e = 0 then "NULL" else toString (e - 1)} nest={nest p} dom={inDomain p} nodup={nodupFilters p} hyp={hyp}"
   return ((t.filter (fun e => match e with | .handler _ => true | _ => false)).length, g = .fatal)
 
